@@ -7,7 +7,7 @@ Constraint descriptors (hashable tuples):
   ('PA', c1, c2, ...)        permitted alphabet
   ('CS', c)                  contained subtype (the values admitted by c)
   ('WC', (field, 'P'|'A'), ...)   WITH COMPONENTS presence / absence
-  ('AND', c...), ('OR', c...), ('NOT', c)
+  ('AND', c...), ('OR', c...), ('NOT', c...)
 """
 
 
@@ -38,7 +38,8 @@ def admits_raw(cd, x):
     if k == 'OR':
         return any(admits_raw(c, x) for c in cd[1:])
     if k == 'NOT':
-        return not admits_raw(cd[1], x)
+        # every operand is excluded: the complement of the union of the operands
+        return not any(admits_raw(c, x) for c in cd[1:])
     raise ValueError(cd)
 
 
@@ -85,7 +86,7 @@ def to_pyasn1(cd):
     if k == 'OR':
         return C.ConstraintsUnion(*[to_pyasn1(c) for c in cd[1:]])
     if k == 'NOT':
-        return C.ConstraintsExclusion(to_pyasn1(cd[1]))
+        return C.ConstraintsExclusion(*[to_pyasn1(c) for c in cd[1:]])
     raise ValueError(cd)
 
 
@@ -113,7 +114,7 @@ def show(cd):
     if k in ('AND', 'OR'):
         return '(' + (' ^ ' if k == 'AND' else ' | ').join(show(c) for c in cd[1:]) + ')'
     if k == 'NOT':
-        return 'ALL EXCEPT ' + show(cd[1])
+        return 'ALL EXCEPT ' + (show(cd[1]) if len(cd) == 2 else '(' + ' | '.join(show(c) for c in cd[1:]) + ')')
     if k == 'CS':
         return 'INCLUDES ' + show(cd[1])
     if k == 'WC':
